@@ -9,36 +9,42 @@ import vf
 from slices import actor, sysrun
 
 
-def sys_campaign(ck, prop, n, families=None, gated_p=0.6, fail_p=0.25, workers=6, seed_base=0, hang_s=None, stop_on_first=False):
+def sys_campaign(ck, prop, n, families=None, gated_p=0.6, fail_p=0.25, workers=6, seed_base=0, hang_s=None, stop_on_first=False,
+                 clean_p=0.0):
     """runs n generated one-shot scenarios; returns list of (obs, texts) violating `prop`"""
     jobs = []
     for i in range(n):
         r = random.Random(ck.rng.getrandbits(48))
         fam, T, roots = sysrun.gen_graph(r, family=(r.choice(families) if families else None))
-        fail = set()
+        fail = {}
         if r.random() < fail_p:
             builds = [t for t in T if T[t]['kind'] == 'build']
             if builds:
-                fail = set(r.sample(builds, min(len(builds), r.choice([1, 1, 2]))))
+                fail = {t: r.choice([1, 1, 2, 143, 'K9', 'K15', 'K11']) for t in r.sample(builds, min(len(builds), r.choice([1, 1, 2])))}
         gated = r.random() < gated_p
         jobs.append((i, fam, T, roots, fail, gated, r))
     found = []
+    clean_rng = random.Random(ck.rng.getrandbits(32))
 
     def one(job):
         i, fam, T, roots, fail, gated, r = job
-        obs, V = sysrun.oneshot(r, T, roots, fail=fail, gated=gated, tag='%s_%d_%d' % (prop, seed_base, i), hang_s=hang_s)
+        pre = ('--clean',) if r.random() < clean_p else ()
+        obs, V = sysrun.oneshot(r, T, roots, fail=fail, gated=gated, tag='%s_%d_%d' % (prop, seed_base, i), hang_s=hang_s,
+                                pre_args=pre)
         return job, obs, V
     with concurrent.futures.ThreadPoolExecutor(max_workers=workers) as ex:
         for job, obs, V in ex.map(one, jobs):
             i, fam, T, roots, fail, gated, r = job
-            key = ('sys', fam, json.dumps(T, sort_keys=True), tuple(roots), tuple(sorted(fail)), gated)
+            key = ('sys', fam, json.dumps(T, sort_keys=True), tuple(roots), tuple(sorted(fail.items())), gated)
             ck.count(key, nontrivial=len(obs['trace']) > 0,
-                     sample={'family': fam, 'targets': T, 'roots': roots, 'fail': sorted(fail), 'gated': gated,
+                     sample={'family': fam, 'targets': T, 'roots': roots, 'fail': fail, 'gated': gated,
                              'outcome': obs['outcome'], 'exit_code': obs['exit_code'], 'trace': obs['trace'][:12]})
             ck.tally('sys:family=' + fam)
             ck.tally('sys:outcome=' + str(obs['outcome']))
             if fail:
                 ck.tally('sys:with_failure')
+            if obs.get('pre_args'):
+                ck.tally('sys:with_--clean')
             if obs['keepalive_expected']:
                 ck.tally('sys:keepalive_expected')
             if prop in V:
@@ -46,8 +52,33 @@ def sys_campaign(ck, prop, n, families=None, gated_p=0.6, fail_p=0.25, workers=6
     return found
 
 
+def report_sys(ck, prop, found, limit=3):
+    for obs, texts in found[:limit]:
+        ck.violation({'kind': 'system-run', 'what': texts, 'targets': obs['targets'], 'roots': obs['roots'],
+                      'failing_scripts': obs['fail'], 'gated': obs['gated'], 'observed_trace': obs['trace'],
+                      'second_run': obs.get('second_run'),
+                      'outcome': obs['outcome'], 'exit_code': obs['exit_code'], 'stderr_tail': obs['stderr_tail'],
+                      'arguments_before_targets': obs.get('pre_args'),
+                      'replay': 'write zinoma.yml with these targets (scripts append start/end lines to a trace; a status K<n> '
+                                'means the script shell kills itself with signal n), run `zinoma %s` (twice when second_run is '
+                                'present), release the gated builds in the order of the observed trace' % ' '.join(obs['roots'])},
+                     found_input=True)
+
+
+def two_invocations(ck, prop, n_quick=10, fail_p=0.7):
+    """real-binary runs whose builds declare inputs, with scripts that fail or are killed by a signal, followed by a second
+    invocation on the untouched tree: what completed is skipped, what did not complete runs again"""
+    ck.rule('two invocations of the real binary on generated graphs whose builds declare inputs: scripts exit 0 / non-zero / '
+            'die from a signal (KILL, TERM, SEGV); second invocation on the untouched tree: completed builds are skipped, '
+            'failed or killed ones run again')
+    n = n_quick if ck.tier == 'quick' else n_quick * 10
+    found = sys_campaign(ck, prop, n, fail_p=fail_p, gated_p=0.5)
+    report_sys(ck, prop, found)
+    return found
+
+
 def check_engine(ck, prop, projection, what, n_actor_quick=400, n_sys_quick=24, families=None, fail_p=0.25, gated_p=0.6,
-                 extra=None):
+                 extra=None, clean_p=0.0):
     quick = ck.tier == 'quick'
     n_actor = n_actor_quick if quick else n_actor_quick * 12
     n_sys = n_sys_quick if quick else n_sys_quick * 12
@@ -58,19 +89,14 @@ def check_engine(ck, prop, projection, what, n_actor_quick=400, n_sys_quick=24, 
     # 1. actor-level correspondence
     diffs = actor.run(ck, n_actor, project=projection, what=what)
     # 2. system-level scenarios
-    found = sys_campaign(ck, prop, n_sys, families=families, fail_p=fail_p, gated_p=gated_p)
+    found = sys_campaign(ck, prop, n_sys, families=families, fail_p=fail_p, gated_p=gated_p, clean_p=clean_p)
     if extra:
         found += extra(ck)
-    for obs, texts in found[:3]:
-        ck.violation({'kind': 'system-run', 'what': texts, 'targets': obs['targets'], 'roots': obs['roots'],
-                      'failing_scripts': obs['fail'], 'gated': obs['gated'], 'observed_trace': obs['trace'],
-                      'outcome': obs['outcome'], 'exit_code': obs['exit_code'], 'stderr_tail': obs['stderr_tail'],
-                      'replay': 'write zinoma.yml with these targets (scripts append start/end lines to a trace), run '
-                                '`zinoma %s`, release the gated builds in the order of the observed trace' % ' '.join(obs['roots'])},
-                     found_input=True)
+    report_sys(ck, prop, found)
     # 3. correspondence broken: search for a failing input, else report the broken correspondence
     if diffs and not found:
-        wider = sys_campaign(ck, prop, 60 if quick else 300, families=families, fail_p=fail_p, gated_p=gated_p, seed_base=1)
+        wider = sys_campaign(ck, prop, 60 if quick else 300, families=families, fail_p=fail_p, gated_p=gated_p, seed_base=1,
+                             clean_p=clean_p)
         if wider:
             obs, texts = wider[0]
             ck.violation({'kind': 'system-run (found while searching around a broken actor correspondence)', 'what': texts,
